@@ -89,6 +89,7 @@ def handle_sat(report, run, ob):
     r = ob.result
     model = r['model']
     key = ob.meta.get('key', ob.name)
+    run = ob.meta.get('run', run)           # obligations built on another input pattern carry their own float run
     payload = dict(property=report.pid, obligation=ob.name, key=key, rung=r['rung'],
                    model=model_json(model), kind='jet')
     if ob.get is None or run is None:
